@@ -149,6 +149,61 @@ def check(run):
                 run.sample({'cells': len(vals), 'inputs': case['inputs'], 'sheets': [s for _, s in wb.sheets]})
             os.chdir(cwd)
             shutil.rmtree(dd, ignore_errors=True)
+        # ---- array results whose memory layout is not row-major (TRANSPOSE of a rectangle, arithmetic on it):
+        # expected cells are computed here from the constants, independently of the solution object
+        from openpyxl.worksheet.formula import ArrayFormula
+        for k in range(12 if quick else 150):
+            R, C = rnd.choice([(2, 3), (3, 2), (2, 2), (3, 4), (1, 3), (4, 1), (2, 5)])
+            data = [[rnd.choice([rnd.randint(-9, 99), round(rnd.uniform(-5, 5), 2), 'tx%d' % rnd.randint(0, 9)]) for _ in range(C)] for _ in range(R)]
+            fac = rnd.choice([2, 10, 0.5])
+            dd = os.path.join(tmp, 't%d' % k)
+            os.makedirs(dd)
+            os.chdir(dd)
+            src = openpyxl.Workbook()
+            ws1 = src.active
+            ws1.title = 'S1'
+            ws2 = src.create_sheet('Other')
+            for i in range(R):
+                for j in range(C):
+                    ws1.cell(row=1 + i, column=1 + j).value = data[i][j]
+            from openpyxl.utils import get_column_letter as L
+            src_ref = 'A1:%s%d' % (L(C), R)
+            r0, c0 = rnd.randint(1, 4), C + 2 + rnd.randint(0, 2)
+            d1 = '%s%d:%s%d' % (L(c0), r0, L(c0 + R - 1), r0 + C - 1)
+            ws1['%s%d' % (L(c0), r0)] = ArrayFormula(d1, '=TRANSPOSE(%s)' % src_ref)
+            r1, c1 = rnd.randint(1, 5), rnd.randint(1, 5)
+            d2 = '%s%d:%s%d' % (L(c1), r1, L(c1 + R - 1), r1 + C - 1)
+            ws2['%s%d' % (L(c1), r1)] = ArrayFormula(d2, '=TRANSPOSE(S1!%s)*%s' % (src_ref, fac))
+            fname = 'tr%d.xlsx' % k
+            src.save(fname)
+            case = {'workbook': {'S1!' + src_ref: data, 'S1!' + d1: '{=TRANSPOSE(%s)}' % src_ref,
+                                 'Other!' + d2: '{=TRANSPOSE(S1!%s)*%s}' % (src_ref, fac)}, 'stage': 'transpose'}
+            exp = {}
+            for i in range(R):
+                for j in range(C):
+                    exp[('S1', 1 + i, 1 + j)] = data[i][j]
+                    exp[('S1', r0 + j, c0 + i)] = data[i][j]
+                    exp[('OTHER', r1 + j, c1 + i)] = '#VALUE!' if isinstance(data[i][j], str) else data[i][j] * fac
+            try:
+                m = bookrun.ExcelModel().loads(fname).finish()
+                sol = m.calculate()
+                out = os.path.join(dd, 'out')
+                m.write(solution=sol, dirpath=out)
+                book = openpyxl.load_workbook(os.path.join(out, os.listdir(out)[0]))
+            except Exception as ex:
+                run.violation('write of TRANSPOSE results raised %s: %s' % (type(ex).__name__, str(ex)[:100]), case)
+                os.chdir(cwd)
+                continue
+            run.count(1, (json.dumps(case['workbook'], sort_keys=True, default=str), 'transpose'), True, 'target=disk/transpose')
+            sheets = {ws.title.upper(): ws for ws in book.worksheets}
+            for (sh, r, c), e in sorted(exp.items()):
+                got = sheets[sh].cell(row=r, column=c).value if sh in sheets else 'no-sheet'
+                ok = (got == e) or (isinstance(e, (int, float)) and isinstance(got, (int, float)) and abs(got - e) <= 1e-9 * max(1, abs(e)))
+                if not ok:
+                    run.violation('written cell %s!%s%d holds %r, the solved value is %r' % (sh, L(c), r, got, e), dict(case, cell='%s!%s%d' % (sh, L(c), r)))
+                    break
+            os.chdir(cwd)
+            shutil.rmtree(dd, ignore_errors=True)
     finally:
         os.chdir(cwd)
         shutil.rmtree(tmp, ignore_errors=True)
